@@ -28,9 +28,16 @@ package ipv4
 // safe separately (fragmentation.Process, for all inputs); that the reassembled view handed on
 // afterwards is consistent (size == bytes held) is NOT established, so the delivery of a
 // reassembled datagram is outside this contract.
+// (Fragments of a datagram that is not ICMP are covered as far as the hand-over to the
+// reassembler: a fragment is given to fragmentation.Process under the key computed from its
+// header, with first = its fragment offset in bytes, last = first + its payload bytes - 1 and
+// more = exactly the MF bit of its header - C08. What is dispatched after reassembly is not
+// covered, see above; fragmented ICMP is excluded altogether.)
 //@ func (*endpoint).HandlePacket props C07 C08
-//@   requires epOK(e) && r != nil && vvOK(vv)
-//@   requires len(vv.views) == 0 || len(vv.views[0]) < header.IPv4MinimumSize || be16(vv.views[0], 6) & 0x3fff == 0
+//@   requires epOK(e) && r != nil && vvOK(vv) && fragmentation.fOK(e.fragmentation)
+//@   requires len(vv.views) == 0 || len(vv.views[0]) < header.IPv4MinimumSize || be16(vv.views[0], 6) & 0x3fff == 0 || vv.views[0][9] != uint8(header.ICMPv4ProtocolNumber)
+//@   at_call Process requires more == (old(be16(caller(vv).views[0], 6)) & 0x2000 != 0) && first == old(be16(caller(vv).views[0], 6)) << 3 && last == first + uint16(vv.size) - 1
+//@   at_call Process requires vv.size == imin(old(caller(vv).size), int(old(be16(caller(vv).views[0], 2)))) - int(old(caller(vv).views[0][0]) & 0xf) * 4
 //@   modifies everything()
 
 // handleICMP itself never emits an ICMP message (replies are sent by the replier only); the
